@@ -6,7 +6,8 @@ from . import core
 from .core import cq_bool, cq_list, cq_nat
 
 THEOREMS = ["C06_iso", "C06_disjoint", "C06_edits", "C06_copy_of_copy",
-            "C06_refuted_parent", "C06_refuted_hook", "C06_example"]
+            "C06_reachable_wf", "C06_reachable_copy", "C06_history_independent", "C06_history_projection",
+            "C06_refuted_parent", "C06_refuted_hook", "C06_example", "C06_example_wf", "C06_parsed_tree_check"]
 
 
 # ---------------------------------------------------------------------------------------------
